@@ -5,11 +5,16 @@ pid = sys.argv[1]
 wt = sys.argv[2]
 n = sys.argv[3] if len(sys.argv) > 3 else '2'
 start = int(sys.argv[4]) if len(sys.argv) > 4 else 1
+flavour = sys.argv[5] if len(sys.argv) > 5 else 'a'
 last = start + int(n) - 1
 for l in open('/verif/properties.jsonl'):
   d = json.loads(l)
   if d['id'] == pid:
     break
+FLAVOUR = {
+  'a': 'Make the changes as different from one another as you can: different functions, different mechanisms (e.g. one at an input/boundary value, one in ordering/concurrency or a multi-step history, one on a rarely used configuration or error path).',
+  'b': 'Make the changes as different from one another as you can, and aim each at a different one of these areas: (1) a type or representation corner (bytes vs str, int vs float vs bool, None, negative or zero or huge numbers, empty containers, repeated/duplicate elements, unicode); (2) an interaction between two features or settings that are each fine alone (a non-default setting combined with another, a code path shared by several daemon types, a helper used from two call sites with different expectations); (3) a lifecycle or state-reset path (reconnect, re-read of a configuration or rule file at run time, start-up order, shutdown, clear()/reset() leaving stale state, a cache or memo that outlives what it describes, a one-shot that is not re-armed). Prefer changes in helper functions and less central modules over the most obvious line of the main function.',
+}
 print(f"""You are helping to evaluate a verification effort for the open-source project graphite-project/carbon (Graphite's Carbon daemons: Twisted services that receive metrics, relay them with consistent hashing, aggregate, cache in memory and write to Whisper).
 
 You have your own scratch git worktree of the repository at {wt} (Python sources under {wt}/lib/carbon). Work ONLY inside {wt}. Do not read or touch /repo or /verif.
@@ -27,7 +32,7 @@ Your task: produce {n} DIFFERENT, independent, realistic source changes ("seeded
       On the unchanged tree this reports '179 passed' plus 2 failed / 5 collection errors that are pre-existing (missing optional libraries); your change must leave those numbers identical.
   (c) the breakage needs something SPECIFIC to manifest - a particular thread interleaving, a crash or fault at a particular point, a multi-step sequence of operations, an unusual input or configuration value, or two cooperating code sites that each look fine alone. Do NOT make changes that ordinary use would expose at once (e.g. breaking every call). Think of plausible maintenance mistakes: a refactoring that narrows a lock, an off-by-one at a boundary, a wrong comparison direction that only matters in a corner, a swallowed error, a missing re-arm of a one-shot, state not reset on a rare path.
 
-Make the changes as different from one another as you can: different functions, different mechanisms (e.g. one at an input/boundary value, one in ordering/concurrency or a multi-step history, one on a rarely used configuration or error path).
+{FLAVOUR[flavour]}
 
 For each change i ({start}..{last}) create a directory {wt}/_seed/{pid}_i/ containing:
   - patch.diff : the change as a unified diff produced by `git -C {wt} diff` (relative to HEAD, applying cleanly with `git apply`), touching only files under lib/carbon (not tests)
